@@ -21,6 +21,7 @@ func init() { register("C08", "exploration", runC08) }
 type e3Case struct {
 	Stream string  `json:"stream"`
 	Cuts   [][]int `json:"cuts"`
+	Poison string  `json:"poison,omitempty"`
 }
 type e3In struct {
 	BufSize int      `json:"bufsize"`
@@ -284,6 +285,12 @@ func runC08(c *Check, rng *rand.Rand) {
 					cs.Cuts = append(cs.Cuts, cuts)
 				}
 			}
+			if i%3 == 2 {
+				// before every run of this case another connection is closed in the
+				// middle of a request (its leftover bytes must die with it)
+				poison := Req("SET", "secret", strings.Repeat("0123456789", 4+lrng.Intn(40)))
+				cs.Poison = base64.StdEncoding.EncodeToString(poison[:len(poison)-1-lrng.Intn(len(poison)/2)])
+			}
 			in.Cases = append(in.Cases, cs)
 		}
 		out, last, err := runE3(in)
@@ -341,9 +348,28 @@ func c08wire(c *Check, rng *rand.Rand) {
 		env.Cl.SetHandler(script.Handler)
 		n := c.Pick(40, 1500)
 		for i := 0; i < n; i++ {
+			if c.NViol() > 30 {
+				c.Count("wire_part_cut_short_after_30_violations", 1)
+				break
+			}
 			g := &pipeGen{env: env, script: script, rng: rng, gated: false, maxMultiKeys: 5,
 				wSingle: 5, wMulti: 3}
 			p := g.pipeline(1 + rng.Intn(10))
+			if i%2 == 0 {
+				// a client that hangs up in the middle of a request, in two writes
+				ab, err := env.Dial()
+				must(err, "dial")
+				pz := Req("SET", "secret"+itoa(i), strings.Repeat("abcdefghij", 3+rng.Intn(30)))
+				cut := len(pz) - 1 - rng.Intn(len(pz)/2)
+				ab.SendChunks(pz[:cut], []int{cut / 2}, 200*time.Microsecond)
+				env.Barrier()
+				if rng.Intn(2) == 0 {
+					ab.Abort()
+				} else {
+					ab.Close()
+				}
+				env.Barrier()
+			}
 			cl, err := env.Dial()
 			must(err, "dial")
 			b := concatReqs(p)
